@@ -129,7 +129,7 @@ SPEC = dict(
           "suspension (status/describe commands) against the model run on the visit trace recorded from the real "
           "interpreter. Non-trivial = the model predicts at least one suspension."),
     trusted_base=[
-        "the visit trace handed to the model is recorded from the real interpreter by a wrapper around the debugger (harness code)",
+        "the visit trace handed to the model is recorded from the real interpreter by a wrapper around the debugger (harness code); independently of it every evaluated literal node and every statement of a statement list must be announced to the debugger (`vis`)",
         "Go's sync.Cond / sync.Mutex behave as the handshake transition system assumes (no spurious wake-ups, Wait releases the lock atomically)",
         "hook events are logged in an order consistent with the lock order (hooks/C15.patch places them inside the critical sections)",
         "fact extractor (go/types over package interpreter): static classification of receivers / assignment targets; reflection, unsafe and function values are outside it (function values are reported as unresolved)",
@@ -139,6 +139,8 @@ SPEC = dict(
         "transparency (same result/log/variables) is a tested metamorphic relation over generated programs, not a theorem about the Go evaluator",
         "one controller per thread at a time (two concurrent Continue calls for the same thread are outside the model)",
         "eventual resumption needs a fair Go scheduler and a terminating program",
+        "debugging state belongs to an EXECUTION: when an execution ends (sink execution on a pool worker, console line, entry file) every pending command of its thread id - resume, step, kill - ends with it (fix thread-finished-clears-state); the property's 'every suspended thread can be resumed' and 'suspends whenever it arrives at an active break point' are read per execution",
+        "the model is per thread; break points are shared between threads only through edits made while that thread is suspended; edits by a second controller while threads run are tested for survival and for unchanged suspensions on unvisited lines only",
     ],
     decode=decode,
     post=post,
